@@ -20,7 +20,7 @@ ID = "C03"
 LEVEL = "model_checking"
 MIN_OUTCOMES = 2
 MANIFEST = {
-    'text': 'Complete enumeration of a constructed project table (pattern/state pairs x config formats x layouts x arrangements incl. all orders of different patterns on one line x line-ending regimes); each project is updated by the real CLI in-process and every occurrence, whose position and expected text are known by construction, is compared with the reference rendering; config value and `show` must equal the announced version. Further layouts: the same pattern two and three times on one line; occurrences glued to a letter or underscore; 20,000-character lines and a 6,000-line file with occurrences far apart; look-alike sections of other tools with their own current_version before the bumpver section; a config file that holds a second version line and is named only by a glob or another spelling of its path. The same layouts are run again with files that show ANOTHER version than the config (stale occurrences): every matched place must still end at the new version.',
+    'text': 'Complete enumeration of a constructed project table (pattern/state pairs x config formats x layouts x arrangements incl. all orders of different patterns on one line x line-ending regimes); each project is updated by the real CLI in-process and every occurrence, whose position and expected text are known by construction, is compared with the reference rendering; config value and `show` must equal the announced version. Further layouts: a README with the bare {version}/{pep440_version} pair `init` writes and the version twice on a line; the same pattern two and three times on one line; occurrences glued to a letter or underscore; 20,000-character lines and a 6,000-line file with occurrences far apart; look-alike sections of other tools with their own current_version before the bumpver section; a config file that holds a second version line and is named only by a glob or another spelling of its path. The same layouts are run again with files that show ANOTHER version than the config (stale occurrences): every matched place must still end at the new version.',
     'note': 'more than 3 occurrences per line and files beyond a few hundred bytes are outside the bound; {pep440_version} occurrences are judged by PEP 440 equality (packaging) with the announced version',
     'technique': 'exhaustive enumeration of a bounded project/layout space executed on the real CLI, by-construction oracle',
 }
@@ -176,6 +176,7 @@ def run_chunk(chunk):
     config_reached_indirectly(st, pat, label, old, new, fmt)
     if fmt == "bumpver.toml":
         size_projects(st, pat, label, old, new, fmt)
+    init_default_readme(st, pat, label, old, new, fmt)
     # stale occurrences: the files show ANOTHER version than the config's current_version (a file that was not kept up to date,
     # or an update that starts from a tag on another branch); every matched place must still end up at the new version
     for k, stale in enumerate(stale_states(pat, old, new, tier)):
@@ -193,6 +194,53 @@ def run_chunk(chunk):
         st.sample({"pattern": pat.text, "states": label, "format": fmt, "layouts": n})
     os.chdir("/")
     return st
+
+
+def init_default_readme(st, pat, label, old, new, fmt):
+    """The file patterns `bumpver init` writes for a README - bare `{version}` and bare `{pep440_version}` - on a README that names the
+    version twice on one line; for v-prefixed patterns the PEP 440 text occurs inside the version text (upstream's overlap rule keeps
+    the earlier pattern's match)."""
+    import packaging.version as pv
+
+    from .. import bumpgraph as bg
+
+    old_text, new_text = M.render(pat.tree, old), M.render(pat.tree, new)
+    if not (bg.is_pep440(old_text) and bg.is_pep440(new_text)):
+        return
+    pep_old = pt.FilePattern("pep", "{pep440_version}", pat).old_text(old)
+
+    def readme(v, pep):
+        return f"# demo\n[![badge {v}](https://example.invalid/{v}.svg)]\n\n    pip install demo=={pep}\n\nsee {v}.\n"
+
+    tree = {fmt: pt.config_text(fmt, pat.text, old_text, [("README.md", ["{version}", "{pep440_version}"])]).encode("utf-8"),
+            "README.md": readme(old_text, pep_old).encode("utf-8")}
+    world.clear_dir(".")
+    world.write_tree(tree)
+    o = world.cli("update", "--no-fetch", "--ignore-vcs-tag", "--set-version", new_text)
+    st.evaluations += 1
+    st.transitions += 1
+    case = {"pattern": pat.text, "states": label, "old": old_text, "new": new_text, "format": fmt, "init_default_readme": True}
+    after = world.read_tree(".").get("README.md", b"").decode("utf-8", "replace")
+    st.observe((case, o.exit, o.crashed, after))
+    st.state("init-readme", pat.text, label, after)
+    if o.exit != 0:
+        st.outcomes["update-refused:init-default-readme"] += 1
+        st.counters["refused:" + ((o.logtext("ERROR").splitlines() or ["?"])[0][:60])] += 1
+        return
+    st.validated += 1
+    st.nontriv(case)
+    m = re.fullmatch(re.escape(readme("@V@", "@P@")).replace("@V@", "(.*)").replace("@P@", "(.*)"), after)
+    ok = bool(m) and m.group(1) == m.group(2) == m.group(4) == o.new_version
+    if ok:
+        try:
+            ok = pv.Version(m.group(3)) == pv.Version(o.new_version)
+        except pv.InvalidVersion:
+            ok = False
+    if not ok:
+        st.outcomes["violation"] += 1
+        st.violation("C03:occurrence:readme-with-the-patterns-init-writes", case, {"announced": o.new_version, "README.md": after})
+    else:
+        st.outcomes["updated:init-default-readme"] += 1
 
 
 def size_projects(st, pat, label, old, new, fmt):
@@ -413,6 +461,10 @@ def replay(case, st):
                         if case.get("respelled"):
                             arrangement = "set-version-respelled"
                         stale = None
+                        if case.get("init_default_readme"):
+                            init_default_readme(st, pat, label, old, new, case["format"])
+                            os.chdir("/")
+                            return
                         if case.get("size_layout"):
                             size_projects(st, pat, label, old, new, case["format"])
                             os.chdir("/")
